@@ -80,6 +80,9 @@ func (g *gen) call(x *ssa.Call, st State, reach string) string {
 			if g.curBlock != nil {
 				e.atBlock, e.atEnd = g.curBlock, true
 			}
+			for _, a := range x.Call.Args {
+				e.callArgs = append(e.callArgs, g.redirect(g.val(a)))
+			}
 			t, err := g.elabBool(pa.Clause.E, e)
 			if err != nil {
 				g.contractError(pa.Clause, err)
@@ -151,7 +154,7 @@ func (g *gen) applyGhostSets(entry bool, callee string, nth int, results []Val, 
 			g.contractError(cl, fmt.Errorf("set: %s has sort %s, expression has %s", gs.Name, g.ctx.compSort[comp], v.S))
 			continue
 		}
-		g.stSet(st, comp, v.T)
+		g.stSet(st, comp, g.define("ghostset_"+gs.Name, g.ctx.compSort[comp], v.T))
 		g.ghostSetsApplied++
 	}
 }
@@ -321,9 +324,6 @@ func (g *gen) havocThrough(a Val, t types.Type, st State, reach string, depth in
 		}
 	case *types.Slice:
 		es := g.ctx.sortOf(u.Elem())
-		if _, isBasic := u.Elem().Underlying().(*types.Basic); !isBasic {
-			return
-		}
 		if a.T == "(mk-slice 0 0 0 0)" {
 			return // nil slice: no elements to write
 		}
@@ -732,6 +732,31 @@ func (g *gen) callContract(x *ssa.Call, fc *FuncContract, name string, args []Va
 			g.contractError(cl, fmt.Errorf("at call to %s: %v", name, err))
 			continue
 		}
+		// A clause with an open known finding does not hold on the finding's witness partition: callers may
+		// assume it only outside W (entry-state witnesses), or not at all (return-state witnesses, which the
+		// caller cannot evaluate).
+		skip := false
+		for _, f := range fc.Findings {
+			if f.Clause != cl.Label && !matchGlob(f.Clause, fc.Key+".ensures."+cl.Label) {
+				continue
+			}
+			if f.Post {
+				skip = true
+				break
+			}
+			epre := g.newEnv(pre, pre)
+			bind(epre)
+			w, werr := g.elabBool(f.When, epre)
+			if werr != nil {
+				skip = true
+				break
+			}
+			t = implies(not(w), t)
+		}
+		if skip {
+			g.ctx.note("callee clause with an open finding not assumed: " + fc.Key + "." + cl.Label)
+			continue
+		}
 		g.ctx.assume(implies(reach, t))
 	}
 	if fc.Extern || fc.Trusted {
@@ -818,6 +843,8 @@ func (g *gen) ghostComp(name string) string {
 	s := "Int"
 	if err == nil {
 		s = g.specSort(g.cs.GhostVars[name], t)
+	} else if gt := g.cs.GhostVars[name]; gt == "intarray" || gt == "seq" || gt == "nat" {
+		s = g.specSort(gt, nil)
 	}
 	return g.ctx.comp("ghost_"+name, s)
 }
